@@ -263,6 +263,8 @@ class ATP_Store:
                     self._record_transaction(energy_type, -cost, operation, True)
                     self._update_state()
                     return True
+                # The top-up moved NADH into ATP: size the debt from what is there now
+                balance = self.atp
 
             # Try to use debt
             if allow_debt and self._debt < self.max_debt:
